@@ -10,7 +10,10 @@ mod p03_nocrash;
 mod p04_consume;
 mod p05_prefix;
 mod p06_resync;
+mod p13_construct;
+mod p14_codes;
 mod p16_reserialise;
+mod p19_zstring;
 mod refmodel;
 mod universe;
 mod p17_timestamp;
@@ -77,6 +80,9 @@ fn main() {
             "C04" => p04_consume::run(&ctx),
             "C05" => p05_prefix::run(&ctx),
             "C06" => p06_resync::run(&ctx),
+            "C13" => p13_construct::run(&ctx),
+            "C14" => p14_codes::run(&ctx),
+            "C19" => p19_zstring::run(&ctx),
             "C16" => p16_reserialise::run(&ctx),
             "C17" => p17_timestamp::run(&ctx),
             "C18" => p18_fixedpoint::run(&ctx),
